@@ -20,6 +20,18 @@ import time
 
 from vt import env
 
+def say(*a):
+    """print that survives a reader who went away: the verdict is the exit code"""
+    try:
+        print(*a)
+        sys.stdout.flush()
+    except BrokenPipeError:
+        try:
+            sys.stdout = open(os.devnull, "w")
+        except OSError:
+            pass
+
+
 VERIF = env.VERIF
 NSHARDS = int(os.environ.get("VERIF_SHARDS", "16"))
 WATCHDOG = {"quick": 900, "thorough": 4 * 3600}
@@ -119,10 +131,10 @@ def run_replay(mod, path):
         rep = repo_tests.run(case["files"], hypothesis_seed=case.get("hypothesis_seed", 0), extra_args=case.get("args", ()))
         hits = [b for b in rep.get("broken", []) if b["contract"] == case.get("contract")]
         if hits:
-            print("replay: contract %s broken: %s" % (hits[0]["contract"], hits[0]["detail"][:400]))
-            print("VIOLATION property=%s replay=%s" % (mod.ID, path))
+            say("replay: contract %s broken: %s" % (hits[0]["contract"], hits[0]["detail"][:400]))
+            say("VIOLATION property=%s replay=%s" % (mod.ID, path))
             return 1
-        print("replay: no violation (property=%s, %s) %s" % (mod.ID, path, rep.get("error", "")))
+        say("replay: no violation (property=%s, %s) %s" % (mod.ID, path, rep.get("error", "")))
         return 0
     ctx = core.Ctx(mod.ID, "quick", 0)
     core.install_step_monitor(env.REPO + os.sep)
@@ -132,10 +144,10 @@ def run_replay(mod, path):
     core.run_case_guarded(mod, case, ctx)
     if ctx.violations:
         v = ctx.violations[0]
-        print("replay: monitor %s fired: %s" % (v["monitor"], v["detail"]))
-        print("VIOLATION property=%s replay=%s" % (mod.ID, path))
+        say("replay: monitor %s fired: %s" % (v["monitor"], v["detail"]))
+        say("VIOLATION property=%s replay=%s" % (mod.ID, path))
         return 1
-    print("replay: no violation (property=%s, %s)" % (mod.ID, path))
+    say("replay: no violation (property=%s, %s)" % (mod.ID, path))
     return 0
 
 
@@ -194,8 +206,8 @@ def main(argv=None):
 
     if errors:
         for s, rc, tail in errors[:3]:
-            print("---- shard %d exited %s ----\n%s" % (s, rc, tail))
-        print("MONITOR-ERROR property=%s %d shard(s) crashed" % (prop, len(errors)))
+            say("---- shard %d exited %s ----\n%s" % (s, rc, tail))
+        say("MONITOR-ERROR property=%s %d shard(s) crashed" % (prop, len(errors)))
         return 3
 
     m = merge(results)
@@ -273,15 +285,15 @@ def main(argv=None):
         with open(os.path.join(VERIF, "evidence", "%s.json" % prop), "w") as f:
             json.dump(evidence, f, indent=1, sort_keys=True, default=repr)
 
-    print("%s tier=%s seed=%d: %d evaluations, %d distinct non-trivial, %d violations, "
+    say("%s tier=%s seed=%d: %d evaluations, %d distinct non-trivial, %d violations, "
           "anchored lines %d/%d, %.1fs" % (prop, args.tier, seed, m["evaluations"],
                                           len(m["shapes"]), len(m["violations"]),
                                           len(m["cover_hit"]), len(m["cover_all"]), wall))
     keys = sorted(m["counters"])
-    print("observed: " + ", ".join("%s=%d" % (k, m["counters"][k]) for k in keys))
+    say("observed: " + ", ".join("%s=%d" % (k, m["counters"][k]) for k in keys))
 
     for eid, (e, n) in matched.items():
-        print("KNOWN-FINDING: property=%s %s (%d occurrence(s) this run)" % (prop, e["what"], n))
+        say("KNOWN-FINDING: property=%s %s (%d occurrence(s) this run)" % (prop, e["what"], n))
     if unknown:
         seen = set()
         n = 0
@@ -291,17 +303,17 @@ def main(argv=None):
                 continue
             seen.add(key)
             path = write_replay(prop, seed, n, v, args.tier)
-            print("  monitor=%s detail=%s" % (v["monitor"], v["detail"][:400]))
-            print("VIOLATION property=%s replay=%s" % (prop, path))
+            say("  monitor=%s detail=%s" % (v["monitor"], v["detail"][:400]))
+            say("VIOLATION property=%s replay=%s" % (prop, path))
             n += 1
             if n >= 5:
                 break
         return 1
     if timeouts:
-        print("INCONCLUSIVE property=%s watchdog fired for shard(s) %s" % (prop, timeouts))
+        say("INCONCLUSIVE property=%s watchdog fired for shard(s) %s" % (prop, timeouts))
         return 2
     if below:
-        print("INCONCLUSIVE property=%s deciding counters below floor: %s" % (
+        say("INCONCLUSIVE property=%s deciding counters below floor: %s" % (
             prop, ", ".join("%s=%d<%d" % (k, a, b) for k, (a, b) in below.items())))
         return 2
     return 0
